@@ -388,7 +388,7 @@ Facts(n, r, err) ==
       same == hasT /\ T.ok /\ T.s = r.s /\ T.e = r.e
       held == \A i \in r.s..(r.e - 1) : Has(st[n], i)
       exempt(i) == LET a == Read(n, i) b == T.ents[i - r.s + 1] IN
-                   i = 1 /\ a.i = 1 /\ a.y = "cfg" /\ b.y = "cfg"       \* checksumLog's bootstrap exception
+                   i = 1 /\ a.i = 1 /\ a.y = "cfg" /\ b.y = "cfg" /\ At(st[n], i).y = "cfg"   \* checksumLog's bootstrap exception
       cpok == Has(st[n], r.e) /\ RecAt(st[n], r.e) = T.cp                  \* the checkpoint entry itself arrived intact
       eq == same /\ held /\ cpok /\ \A i \in r.s..(r.e - 1) :      \* stored as the leader wrote it and read back unchanged
                  (RecAt(st[n], i) = T.ents[i - r.s + 1] /\ Read(n, i) = T.ents[i - r.s + 1]) \/ exempt(i)
